@@ -246,7 +246,7 @@ class Recorder:
                     def sample_batch(self_, *a, **k):
                         i = rec.n_sample_batch
                         rec.n_sample_batch += 1
-                        if i == rec.fault["sampler"]:
+                        if i == rec.fault.get("sampler"):
                             raise InjectedFault(f"sampler call {i}")
                         return orig(self_, *a, **k)
                     return sample_batch
